@@ -33,6 +33,8 @@ pub struct Tables {
     pub observers: Vec<Vec<Observer<Val>>>,
     pub tokens: HashMap<(usize, i64), SubscriptionToken>,
     pub leaked: Vec<Incr<Val>>,
+    /// expert node id -> "its observability callback panics next time it becomes observable"
+    pub armed: HashMap<usize, Rc<Cell<bool>>>,
     pub log: Log,
     pub in_stabilise: bool,
 }
@@ -299,6 +301,13 @@ impl Ctx {
                 let mut memos = self.memos.borrow_mut();
                 (memos[m - 1])(v.int())
             }
+            "boom" => {
+                // a bind closure that panics on BoomVal (C13 crash point)
+                if v.to_json() == json!(["i", 1, 0]) {
+                    panic!("injected user panic (bind closure)");
+                }
+                self.run_recipe(&rc["then"], v, cap)
+            }
             "leak" => {
                 let n = self.run_recipe(&rc["then"], v, cap);
                 self.with(|t| t.leaked.push(n.clone()));
@@ -310,6 +319,16 @@ impl Ctx {
 }
 
 impl Ctx {
+    /// the on_observability_change callback of expert node `id`: panics once when armed (C13 crash point)
+    fn obs_callback(&self, id: usize) -> impl FnMut(bool) + 'static {
+        let armed = Rc::new(Cell::new(false));
+        self.with(|t| t.armed.insert(id, armed.clone()));
+        move |on: bool| {
+            if on && armed.replace(false) {
+                panic!("injected user panic (observability callback)");
+            }
+        }
+    }
     fn make_bind_captured(&self, lhs: &Incr<Val>, recipe: J, id: usize, captured: HashMap<usize, Incr<Val>>) -> Incr<Val> {
         let ctx = self.clone();
         lhs.bind(move |v: &Val| {
@@ -333,7 +352,7 @@ fn recipe_refs(rc: &J, out: &mut Vec<usize>) {
             recipe_refs(&rc["pre"], out);
             recipe_refs(&rc["then"], out);
         }
-        "leak" => recipe_refs(&rc["then"], out),
+        "leak" | "boom" => recipe_refs(&rc["then"], out),
         _ => {}
     }
 }
@@ -526,13 +545,13 @@ impl Session {
                 let input = self.node(a["in"].as_u64().unwrap() as usize);
                 let prev: Rc<RefCell<Option<expert::Dependency<Val>>>> = Rc::new(RefCell::new(None));
                 let c2 = ctx.clone();
-                let join = expert::Node::<Val>::new(&ctx.ws, {
+                let join = expert::Node::<Val>::new_(&ctx.ws, {
                     let prev_ = prev.clone();
                     move || {
                         c2.with(|t| t.log.inv.push((id, vec![])));
                         prev_.borrow().clone().unwrap().value_cloned()
                     }
-                });
+                }, ctx.obs_callback(id));
                 let join_ = join.weak();
                 let c3 = ctx.clone();
                 let lhs_change = input.map(move |rhs: &Val| {
@@ -557,13 +576,13 @@ impl Session {
                 let input = self.node(a["in"].as_u64().unwrap() as usize);
                 let cell: Rc<RefCell<Option<Val>>> = Rc::new(RefCell::new(None));
                 let c2 = ctx.clone();
-                let node = expert::Node::<Val>::new(&ctx.ws, {
+                let node = expert::Node::<Val>::new_(&ctx.ws, {
                     let cell_ = cell.clone();
                     move || {
                         c2.with(|t| t.log.inv.push((id, vec![])));
                         cell_.borrow().clone().unwrap()
                     }
-                });
+                }, ctx.obs_callback(id));
                 let node_ = node.weak();
                 let c3 = ctx.clone();
                 let ctl = input.map(move |x: &Val| {
@@ -583,13 +602,13 @@ impl Session {
                 let ins: Vec<Incr<Val>> = a["ins"].as_array().unwrap().iter().map(|x| self.node(x.as_u64().unwrap() as usize)).collect();
                 let store: Rc<RefCell<Vec<(u64, Val)>>> = Rc::new(RefCell::new(vec![]));
                 let c2 = ctx.clone();
-                let node = expert::Node::<Val>::new(&ctx.ws, {
+                let node = expert::Node::<Val>::new_(&ctx.ws, {
                     let store_ = store.clone();
                     move || {
                         c2.with(|t| t.log.inv.push((id, vec![])));
                         Val::I(store_.borrow().iter().map(|(_, v)| v.int()).sum::<i64>() % val::k())
                     }
-                });
+                }, ctx.obs_callback(id));
                 let node_ = node.weak();
                 let deps: RefCell<Vec<(u64, expert::Dependency<Val>)>> = RefCell::new(vec![]);
                 let next_key = Cell::new(0u64);
@@ -627,6 +646,11 @@ impl Session {
                 ctx.push_node(id, None);
                 ctx.push_node(id + 1, Some(n));
             }
+            "xarm" => {
+                let id = a["n"].as_u64().unwrap() as usize;
+                let cell = self.t.borrow().armed.get(&id).cloned().unwrap_or_else(|| panic!("harness: node {id} has no observability callback"));
+                cell.set(true);
+            }
             "cutoff" => {
                 let id = a["n"].as_u64().unwrap() as usize;
                 let n = self.node(id);
@@ -639,6 +663,13 @@ impl Session {
                         let c2 = ctx.clone();
                         n.set_cutoff_fn_boxed(move |old: &Val, new: &Val| {
                             c2.with(|t| t.log.cut.push((id, old.to_json(), new.to_json())));
+                            if c == "boom" {
+                                // a cutoff function that panics on BoomVal (C13 crash point), else PartialEq
+                                if new.to_json() == json!(["i", 1, 0]) {
+                                    panic!("injected user panic (cutoff function)");
+                                }
+                                return old == new;
+                            }
                             val::should_cutoff(&c, old, new)
                         });
                     }
@@ -1015,7 +1046,7 @@ pub fn run_behaviour(hist: &[J], max_height: Option<usize>) -> Vec<Mismatch> {
                         out.push(Mismatch { prop: "C19", step: i, what: format!("panic does not name the cause ({want}): {msg}") });
                     }
                     poisoned = true;
-                    user_panic = want == "user";
+                    user_panic = user_panic || want == "user";
                 }
                 _ => {
                     out.push(Mismatch { prop: if poisoned { "C13" } else { "C04" }, step: i, what: format!("action {a} panicked: {msg}") });
